@@ -292,6 +292,7 @@ func runC10(c *Ctx, pr *PropertyRun) {
 	freshHolderRule(c, pr, "C10")
 	// what is decoded for one property type is not another type's cached answer
 	cacheKeysRule(c, pr, "C10")
+	addressableMarshalersRule(c, pr, "C10")
 	// tags, dates and hrefs are written and read by inverse pairs, in the
 	// multistatus and in the headers (shared with C16.pairs)
 	c16Pairs(c, pr, "C10", func(what string) bool {
@@ -1246,6 +1247,23 @@ func runC04(c *Ctx, pr *PropertyRun) {
 				continue
 			}
 			ne.Role("refused-run")
+			// the refusal is the precondition check's: nothing but
+			// observations (stat) has been attempted when it is given — a 412
+			// that comes out of a failing open or remove is the operating
+			// system deciding a precondition the check had let through
+			for _, o := range run.OS {
+				switch o.Call {
+				case "os.Stat", "os.Lstat", "Walk.lstat":
+					continue
+				}
+				k := run.Method + "|" + run.Status + "|after " + o.Call + "=" + o.Outcome
+				ne.Ob(false)
+				if !seen[k] {
+					seen[k] = true
+					ne.Violation("refusal-after-attempt|"+k, o.Pos, fmt.Sprintf("%s is refused with %s after %s[%s] was attempted (%s) although nothing is wrong with the operating system: the precondition check had let the request through and the refusal comes from a later call — for some header values the request is refused although its preconditions hold. Trace: %s", run.Method, run.Status, o.Call, o.Role, o.Outcome, run.describe()), nil)
+				}
+				break
+			}
 			ne.Ob(len(changes) == 0)
 			if len(changes) == 0 {
 				continue
